@@ -27,7 +27,9 @@ let etags_of s =
         | Some i -> { et_weak = (String.sub it 0 i = "1"); et_value = ns_of_csv (String.sub it (i + 1) (String.length it - i - 1)) }
         | None -> failwith "etag") (String.split_on_char ';' body))
   end
-let zs = function None -> "N" | Some z -> string_of_int (int_of_z z)
+(* exact decimal printing of arbitrarily large Z through the model's own printer *)
+let zstr z = String.concat "" (List.map (fun c -> String.make 1 (Char.chr (int_of_n c))) (dec_of_Z z))
+let zs = function None -> "N" | Some z -> zstr z
 let entry tok =
   match String.split_on_char ':' tok with
   | [p; "F"; d] -> (path_of p, NFile (bytes_of_hex d))
@@ -47,8 +49,8 @@ let handle line =
      | HR_ValueError -> "VE")
   | ["RANGE"; sz; gate; h] ->
     (match range_decision (z_of_int (int_of_string sz)) (b01 gate) (opt_str h) with
-     | D200 n -> "D200 " ^ string_of_int (int_of_z n)
-     | D206 (st, cnt, cr) -> Printf.sprintf "D206 %d %d %s" (int_of_z st) (int_of_z cnt) (hex_of_bytes cr)
+     | D200 n -> "D200 " ^ zstr n
+     | D206 (st, cnt, cr) -> Printf.sprintf "D206 %s %s %s" (zstr st) (zstr cnt) (hex_of_bytes cr)
      | D416 cr -> "D416 " ^ hex_of_bytes cr)
   | ["RESP"; head; chunk; content; mtime; etag; ifm; unm; ifn; ms; ifr; rng] ->
     let r = file_response (b01 head) (z_of_int (int_of_string chunk)) (bytes_of_hex content) (z_of_int (int_of_string mtime))
@@ -63,7 +65,7 @@ let handle line =
     show_sresp (serve_path !cur_fs (ns_of_csv prefix) (path_of root) (b01 follow) (b01 show) (ns_of_csv accept) (ns_of_csv ps))
   | ["RESOLVE"; p] ->
     (match resolve !cur_fs (path_of p) with
-     | RP_ok q -> "OK " ^ str_of_path q | RP_loop -> "LOOP" | RP_nul -> "NUL" | RP_fuel -> "FUEL")
+     | RP_ok q -> "OK " ^ str_of_path q | RP_loop -> "LOOP" | RP_nul -> "NUL" | RP_fuel -> "FUEL" | RP_partial _ -> "PARTIAL")
   | ["NORM"; s] -> csv_of_ns (py_normpath (ns_of_csv s))
   | ["SRES"; prefix; ps] ->
     (match static_resolve (ns_of_csv prefix) (ns_of_csv ps) with None -> "NONE" | Some s -> "SOME " ^ csv_of_ns s)
